@@ -89,6 +89,15 @@ def expand(facts, body, t, depth=0, _stack=()):
         return t
     if t[0] in ('const', 'arg', 'upvar', 'env', 'item', 'fn', 'uninit'):
         return t
+    if t[0] == 'call' and len(t[2]) == 2 and depth < 6:
+        # a local closure called directly (`let f = |n| ..; f(x)`): Fn::call(&closure, (args..)) -> the closure's value
+        f, a = peel(t[2][0]), peel(t[2][1])
+        if isinstance(f, tuple) and f and f[0] == 'agg' and f[1] == 'closure' and isinstance(a, tuple) and a and a[0] == 'agg' and a[1] == 'tuple' and \
+                ('{closure' in t[1] or last_seg(t[1]) in ('call', 'call_mut', 'call_once')):
+            from .seq import apply_fn
+            r = apply_fn(facts, f, tuple(expand(facts, body, x, depth + 1, _stack) for x in a[3]))
+            if not (isinstance(r, tuple) and r and r[0] == 'apply'):
+                return r
     return tuple(expand(facts, body, x, depth, _stack) if isinstance(x, tuple) else x for x in t)
 
 
